@@ -784,3 +784,72 @@ def rule_gloop_singletons(ctx):
                                                          "so tensors outside every loop are left out of the value", where=f"{m.relpath}:{call.lineno}", operand="singletons"))
     r.floor(n, 3, "contract_gloop_expand implementations")
     return r
+
+
+def rule_query_selects_output(ctx):
+    r = RuleResult(
+        "query-selects-output",
+        "a BP method that answers a query about one named index (a parameter it looks up in ind_map) through an explicit "
+        "`array_contract(..., output=...)` must choose that output axis *by the query*: every definition of the output spec lies "
+        "under a test that reads the queried parameter (or is computed from it) — an output chosen by any other predicate answers "
+        "for whichever dangling index comes last",
+    )
+    n = 0
+    for m in ctx.prog.modules.values():
+        if not m.name.startswith("quimb.tensor.belief_propagation"):
+            continue
+        for f in m.all_functions:
+            if f.is_alias or isinstance(f.node, ast.Lambda) or f.cls is None or f.parent is not None:
+                continue
+            walk = list(_own_walk(f.node))
+            # queried parameters: used as the key of an ind_map lookup
+            queried = set()
+            for x in walk:
+                if isinstance(x, ast.Subscript) and isinstance(x.value, ast.Attribute) and x.value.attr == "ind_map" and isinstance(x.slice, ast.Name) and x.slice.id in f.params:
+                    queried.add(x.slice.id)
+            if not queried:
+                continue
+            for call in walk:
+                if not (isinstance(call, ast.Call) and (dotted(call.func) or "").split(".")[-1] == "array_contract"):
+                    continue
+                out = next((k.value for k in call.keywords if k.arg == "output"), call.args[2] if len(call.args) > 2 else None)
+                if not isinstance(out, ast.Name):
+                    continue
+                n += 1
+                q = f"{f.qualname}"
+                bad = []
+
+                def visit(stmts, guarded):
+                    for s in stmts:
+                        if isinstance(s, ast.Assign) and any(isinstance(t, ast.Name) and t.id == out.id for t in s.targets):
+                            from_query = any(isinstance(y, ast.Name) and y.id in queried for y in ast.walk(s.value))
+                            if not (guarded or from_query):
+                                bad.append(s)
+                        if isinstance(s, ast.If):
+                            g = any(isinstance(y, ast.Name) and y.id in queried for y in ast.walk(s.test))
+                            visit(s.body, guarded or g)
+                            # the else arm of a test on the query is *not* selected by it
+                            visit(s.orelse, guarded)
+                        elif isinstance(s, (ast.For, ast.While)):
+                            visit(s.body, guarded)
+                            visit(s.orelse, guarded)
+                        elif isinstance(s, ast.With):
+                            visit(s.body, guarded)
+                        elif isinstance(s, ast.Try):
+                            visit(s.body, guarded)
+                            for h in s.handlers:
+                                visit(h.body, guarded)
+                            visit(s.orelse, guarded)
+                            visit(s.finalbody, guarded)
+
+                visit(f.node.body, False)
+                if not bad:
+                    r.ok(q, sample={"query": sorted(queried), "output spec": out.id})
+                else:
+                    s = bad[0]
+                    r.bad(Finding("query-selects-output", q,
+                                  f"`{src_of(s)[:50]}` sets the output of the contraction that answers the query for `{sorted(queried)[0]}` "
+                                  "without any test on the queried index: the value returned is that of another index",
+                                  where=f"{m.relpath}:{s.lineno}", operand="output"))
+    r.floor(n, 1, "query contractions with an explicit output spec")
+    return r
